@@ -942,6 +942,16 @@ def p_separators( ctx ):
         nexts = [ n for n in cfg.nodes if n.kind == 'stmt' and any( a is w for a in src.ancestors( n.stmt )) and any( pmatch( c, 'next( %s )' % SOURCE ) is not None for c in ast.walk( n.stmt )) ]
         gnodes = [ n for n in cfg.nodes if n.kind == 'test' and any( n.expr is g and start_guard( g ) for g in guards ) ]
         refresh = [ n for n in stores if inside( n.stmt ) ]
+        # (4) once the engine runs, the marker moves only together with a discarded symbol: every store of it inside the engine loop lies under
+        # the start-of-message guard ( source.sent == marker: the discard loop, or an `if` around it ).  Stored anywhere else in the loop - e.g. when a time-out expired in the middle of a
+        # message - it claims "nothing of the current message consumed" while part of it was, and the next block's first byte, if it equals
+        # an ignored symbol, is taken out of the PAYLOAD
+        loose = [ n for n in refresh if not any( isinstance( a, ( ast.If, ast.While )) and inside( a ) and start_guard( a.test ) and n.stmt not in getattr( a, 'orelse', [] )
+                                                 and not any( n.stmt is x for o in a.orelse for x in ast.walk( o )) for a in src.ancestors( n.stmt )) ]
+        if loose:
+            res.bad( src, loose[0].stmt, 'tnet_from: the start-of-message marker is re-stored inside the engine loop where the start-of-message guard does not hold ( %s )' % norm_text( loose[0].stmt ),
+                     "part of the current message may have been consumed by then: the guard %s.sent == %s holds again in the middle of a message and a payload byte equal to an ignored symbol that begins the next block ( b'3:a' | time-out | b'\\nb,' ) is discarded" % ( SOURCE, marker ) )
+            continue
         if nexts and all( cfg.must_pass( x, t, refresh, correlated=False ) for x in nexts for t in gnodes + [ hnode ] ):
             res.ok( src, w, 'the discard after %s.chain( ... ) runs only while %s.sent == %s ( nothing of the current message consumed ), and %s follows each discarded symbol' % ( SOURCE, SOURCE, marker, marker ))
         else:
